@@ -379,8 +379,13 @@ fn find_free_symbols_in_proc<'a>(
     env: &mut HashSet<&'a Cell>,
     free: &mut HashSet<&'a Cell>,
 ) -> Result<(), Error> {
-    if car.is_quote() || car.is_quasiquote() {
+    if car.is_quote() {
         return Ok(());
+    }
+
+    // A quasiquote template is data, except for the expressions it unquotes
+    if car.is_quasiquote() {
+        return find_free_symbols_in_template(cdr, env, free);
     }
 
     if car.is_symbol() && !car.is_primitive_symbol() && !env.contains(car) {
@@ -445,6 +450,46 @@ fn find_free_symbols_in_proc<'a>(
         find_free_symbols(rest, env, free)?;
     }
 
+    Ok(())
+}
+
+/// Find Free Symbols In Template
+///
+/// Walk a quasiquote template the way compile_quasiquote does and scan the
+/// expressions unquoted at the template's own nesting level; everything else
+/// in the template is literal data.
+fn find_free_symbols_in_template<'a>(
+    template: &'a Cell,
+    env: &mut HashSet<&'a Cell>,
+    free: &mut HashSet<&'a Cell>,
+) -> Result<(), Error> {
+    let mut pending = vec![(template, 0_usize)];
+    while let Some((cell, mut depth)) = pending.pop() {
+        match cell {
+            Cell::Pair(car, cdr) => {
+                if car.is_unquote() {
+                    if depth == 0 {
+                        if let Some(expr) = cdr.car() {
+                            find_free_symbols(expr, env, free)?;
+                        }
+                        continue;
+                    }
+                    depth -= 1;
+                }
+                if car.is_quasiquote() {
+                    depth += 1;
+                }
+                pending.push((cdr, depth));
+                pending.push((car, depth));
+            }
+            Cell::Vector(vector) => {
+                for it in vector {
+                    pending.push((it, depth));
+                }
+            }
+            _ => {}
+        }
+    }
     Ok(())
 }
 
